@@ -162,12 +162,37 @@ def origin_of_place(fn, place, depth=12, _seen=None):
                     if inner.k == "agg" and str(inner.a).endswith("::%s" % o.a) and e["f"] < len(inner.kids) and not str(inner.a).startswith("closure:"):
                         o = inner.kids[e["f"]]
                         continue
+                    # ... or on every way here (`let r = if c {Some(a)} else {Some(b)}; (r as Some).0`): one of the operands
+                    if inner.k == "phi" and inner.kids and all(k_.strip().k == "agg" and str(k_.strip().a).endswith("::%s" % o.a) and e["f"] < len(k_.strip().kids) and not str(k_.strip().a).startswith("closure:") for k_ in inner.kids):
+                        alts_ = []
+                        for k_ in inner.kids:
+                            pk_ = k_.strip().kids[e["f"]]
+                            if k_.strip().bb is not None:
+                                pk_ = Origin(pk_.k, pk_.a, pk_.kids, k_.strip().bb)     # produced where the literal is built
+                            alts_.append(pk_)
+                        o = Origin("phi", inner.a, alts_, inner.bb)
+                        continue
                 o = Origin("field", e.get("n") or str(e["f"]), [o])
             elif "idx" in e:
                 o = Origin("index", None, [o, origin_of_local(fn, e["idx"], depth - 1, _seen)])
             elif "v" in e:
                 vn = e.get("vn", e["v"])
                 s0 = o.strip()
+                if s0.k == "phi" and any(k_.strip().k == "phi" for k_ in s0.kids):
+                    # alternatives of alternatives (a value handed through several joins): one flat list, duplicates once
+                    flat_, seen_ = [], set()
+                    st_ = list(s0.kids)
+                    while st_:
+                        k_ = st_.pop(0)
+                        if k_.strip().k == "phi":
+                            st_ = list(k_.strip().kids) + st_
+                            continue
+                        key_ = (k_.fmt(), k_.strip().bb)
+                        if key_ not in seen_:
+                            seen_.add(key_)
+                            flat_.append(k_)
+                    s0 = Origin("phi", s0.a, flat_, s0.bb)
+                    o = s0
                 if s0.k == "phi":
                     # only the definitions that build this variant can reach a read of its payload
                     lit = [k for k in s0.kids if k.strip().k == "agg" and "::" in str(k.strip().a)]
@@ -220,7 +245,12 @@ def origin_of_local(fn, l, depth=12, _seen=None):
         if name is None and len(defs) <= 8:
             seen2 = set(_seen)
             seen2.add(l)
-            kids = [_origin_of_def(fn, d, depth - 1, seen2) for d in defs]
+            kids = []
+            for d in defs:
+                kd = _origin_of_def(fn, d, depth - 1, seen2)
+                if kd.bb is None:
+                    kd = Origin(kd.k, kd.a, kd.kids, d[0])       # an alternative is produced in the block of its definition
+                kids.append(kd)
             return Origin("phi", {"local": l}, kids)
         return Origin("var", {"local": l, "name": name, "ndefs": len(defs)})
     seen2 = set(_seen)
@@ -267,7 +297,7 @@ def _origin_of_def(fn, d, depth, seen):
             nm = "%s::%s" % (j["adt"], j["variant"])
         elif nm in ("closure", "coroutine"):
             nm = "closure:" + j["def"]
-        return Origin("agg", nm, [origin_of_operand(fn, o, depth, seen) for o in rv.ops])
+        return Origin("agg", nm, [origin_of_operand(fn, o, depth, seen) for o in rv.ops], bb)
     return Origin("unknown", k)
 
 
@@ -901,7 +931,7 @@ def event_graph(fn, role_of, ret_local=0, max_states=40000, branch_role=None, st
                 ll = s.lhs.local
                 if kb and any(x[0] == ll for x in kb):
                     kb = frozenset(x for x in kb if x[0] != ll)
-                if fn.local_name(ll) is None and fn.local_ty(ll) == "bool" and s.rv.k == "use" and s.rv.ops[0].kind == "const" and isinstance(s.rv.ops[0].const_value(), bool) and ll not in mut_borrowed(fn):
+                if fn.local_ty(ll) == "bool" and s.rv.k == "use" and s.rv.ops[0].kind == "const" and isinstance(s.rv.ops[0].const_value(), bool) and ll not in mut_borrowed(fn) and ll != ret_local:
                     kb = kb | {(ll, s.rv.ops[0].const_value())}
                 # an enum value built from a literal variant: a later `discriminant(x)` on the same path is known
                 elif s.rv.k == "agg" and s.rv.j.get("ak") == "adt" and _STD_VARIANT.get((s.rv.j.get("adt"), s.rv.j.get("variant"))) is not None and ll not in mut_borrowed(fn):
@@ -913,7 +943,7 @@ def event_graph(fn, role_of, ret_local=0, max_states=40000, branch_role=None, st
                 elif s.rv.k == "use" and s.rv.ops and s.rv.ops[0].place is not None and s.rv.ops[0].place.is_local():
                     # moves keep the knowledge
                     for kl, kv in kb:
-                        if kl == s.rv.ops[0].place.local and (isinstance(kv, tuple) or (isinstance(kv, bool) and fn.local_name(ll) is None and ll not in mut_borrowed(fn))):
+                        if kl == s.rv.ops[0].place.local and (isinstance(kv, tuple) or (isinstance(kv, bool) and ll not in mut_borrowed(fn) and ll != ret_local)):
                             kb = kb | {(ll, kv)}
                 # the literal an unnamed temporary holds (so that `tmp = Err(X); _0 = move tmp` returns Err(X))
                 if s.rv.k == "agg" and s.rv.j.get("ak") == "adt" and fn.local_name(ll) is None and ll != ret_local and ll not in mut_borrowed(fn):
